@@ -110,6 +110,13 @@ func TestVerifC19Expect(t *testing.T) {
 					content = strings.TrimRight(vOOVBlock(r, 2)+string(d.raw), "\n")
 				case "crlf":
 					content = strings.ReplaceAll(vOOVBlock(r, 2)+vWithNL(string(d.raw))+vOOVBlock(r, 1), "\n", "\r\n")
+					// every fifth line ends in CR CR LF: only the CR of the line terminator is
+					// not part of the line's text
+					ls := strings.Split(content, "\r\n")
+					for i := 2; i < len(ls)-1; i += 5 {
+						ls[i] += "\r"
+					}
+					content = strings.Join(ls, "\r\n")
 				case "long-line-before":
 					content = vLongLine(r, 70000+r.Intn(130000)) + "\n" + vWithNL(string(d.raw)) + vOOVBlock(r, 1)
 				case "long-line-inside":
@@ -179,6 +186,25 @@ func TestVerifC19Expect(t *testing.T) {
 				tree.Files = append(tree.Files, f)
 				e.count("files", 1)
 				e.count("expected_matches", int64(len(f.Matches)))
+			}
+			if ti%3 == 1 && len(tree.Files) > 0 {
+				// a symbolic link to a file of the tree (the first one with a match, if any):
+				// it names a file whose bytes are the target's, so it is reported like it
+				tgt := tree.Files[0]
+				for _, f := range tree.Files {
+					if len(f.Matches) > 0 {
+						tgt = f
+						break
+					}
+				}
+				rel := "zz_link_to_" + filepath.Base(tgt.Rel)
+				abs := filepath.Join(dir, rel)
+				if err := os.Symlink(tgt.Abs, abs); err == nil {
+					tree.Files = append(tree.Files, vC19File{Rel: rel, Abs: abs, Kind: "symlink-to-" + tgt.Kind, Matches: tgt.Matches})
+					e.count("files", 1)
+					e.count("symlinked_files", 1)
+					e.count("expected_matches", int64(len(tgt.Matches)))
+				}
 			}
 			b, _ := json.Marshal(tree)
 			os.WriteFile(filepath.Join(base, fmt.Sprintf("t%03d.json", ti)), b, 0644)
